@@ -15,7 +15,8 @@ ID = 'C08'
 LEVEL = 'exploration'
 RULE = ('Hypothesis expression trees (depth <= 5) over + - * /, unary minus, the six comparisons, round(x), round(x, n), '
         'floor, ceil, abs, int, sum, min, max on literals with 1-40 integer and 0-40 fraction digits (leading/trailing '
-        'zeros, values straddling the 28th digit, half-even ties), magnitudes within 10^+-200; unary builtins also as '
+        'zeros, values straddling the 28th digit, half-even ties), magnitudes within 10^+-200; chains x op c1 op c2 .. with an inexact '
+        'head and literal tails (re-association changes the rounding); unary builtins also as '
         'x.f() / x | f with a bare leading minus (-2.5.floor() is floor(-2.5)); parsers built or previously used under '
         'another decimal context (prec 6 ROUND_DOWN, prec 60 ROUND_UP) or with a parse cache, evaluated under the default context. Oracle: exact rational '
         'arithmetic with own half-even rounding to 28 significant digits after every operation; a literal alone must equal '
@@ -327,6 +328,16 @@ def trees(draw):
         return ('bin', pick('+-*/'), g(d - 1), g(d - 1))
 
     t = g(n(6))
+    if n(10) == 0:
+        # chains of one operator whose tail operands are literals: re-association / constant folding changes the rounding
+        head = ('bin', '/', small_lit() if n(2) else lit(), pick([('lit', '3'), ('lit', '7'), ('lit', '9'), lit()])) if n(4) else g(2)
+        op = pick('**+-/')
+        t = head
+        for _ in range(2 + n(3)):
+            t = ('bin', op, t, small_lit() if n(3) else lit())
+        if n(3) == 0:
+            t = ('bin', pick('+-*/'), t, g(1))
+        return t
     if n(8) == 0:
         return (pick(['aug', 'augidx']), pick('+-*/'), g(n(3)), g(n(3)))
     if n(6) == 0:
